@@ -388,7 +388,7 @@ func (m c07) Run(c *core.Ctx) {
 		}
 	}
 	// random longer histories with generated observers
-	n := c.Pick(120, 3000)
+	n := c.Pick(120, 40000)
 	o := gen.Opts{MaxStmts: 22, MaxDepth: 4, ExprDepth: 3, Try: 0.5, Throw: 0.15, Funcs: 0.6, Shadow: 0.2, LogProb: 0.2, Globals: true, DeepRecursion: 20, Faults: 0.01, Params: 2}
 	for i := 0; i < n; i++ {
 		if stopExploring(c) {
